@@ -300,10 +300,16 @@ pub fn check_sequence(keys: &[K], history: &[String]) -> Outcome {
     let end = guard(|| {
         let mut ed = Editor::new(history.to_vec());
         // read commands until the key queue runs dry (typed unwind)
+        // a submitted line of k keys holds at most k commands: anything beyond that means the
+        // splitter is re-reading old text instead of asking for a new line
+        let cap = keys.len() + 2;
         loop {
             match ed.read() {
                 Some(c) => commands.push(c),
                 None => break,
+            }
+            if commands.len() > cap {
+                break;
             }
         }
     });
@@ -398,6 +404,18 @@ pub fn check_sequence(keys: &[K], history: &[String]) -> Outcome {
             r.submitted(&line);
             r.start_line();
         }
+    }
+    if commands.len() > keys.len() + 2 {
+        oc.violation = Some((
+            "C20/splitter-never-asks-for-a-new-line".into(),
+            format!(
+                "keys [{}]: more commands were read ({:?}...) than the submitted text holds; the reference reads {:?} and then waits for the next line",
+                keys.iter().map(|k| k.name()).collect::<Vec<_>>().join(" "),
+                &commands[..commands.len().min(6)],
+                expected_commands
+            ),
+        ));
+        return oc;
     }
     match &end {
         Err(Abort::Keys) => {}
